@@ -306,6 +306,9 @@ func ruleORD(c *Ctx) []Obligation {
 			if e.Panic {
 				continue // diagnostics, not output
 			}
+			if e.NilTest {
+				continue // a presence test (`g.Init == nil` choosing the declaration form), not output
+			}
 			if !e.Direct {
 				// indirect: ignore reads made by derived-information helpers
 				via := e.Via
